@@ -134,3 +134,110 @@ Theorem concrete_model_rejects_mismatch : forall (c : tx_case) b,
     Concrete.model_tx c = None.
 Proof. exact Proofs.C27.concrete_model_rejects_mismatch. Qed.
 Print Assumptions concrete_model_rejects_mismatch.
+
+(* ---- operation histories on ONE builder ----
+   [hrun] runs a list of calls (HAddIn = AddPublicKeyHashInput / AddScriptHashInput, HAddOut,
+   HCompute = ComputeSignatureHashes, HSign = AddSignatures) through the per-call step function
+   [hstep] of the builder state record (inputs, sighash arguments, outputs, last computed hashes)
+   and returns the final state and what every call returned.  [hist_ins] / [hist_outs] are the
+   inputs the builder accepted / the outputs added by a list of calls; [tx_sighashes ins outs] are
+   THE signature hashes of the unsigned transaction [tx_of ins outs]. *)
+
+(* For EVERY history (any calls before, any calls after, including AddSignatures attempts that
+   rewrote inputs in place): what a ComputeSignatureHashes call returns is exactly the signature
+   hashes of the transaction as it is AT THAT CALL - a function of the inputs and outputs added so
+   far, of nothing else (no fragment of an earlier computation survives). *)
+Theorem history_sighashes_fresh :
+  forall (sigT : Type) (der : sigT -> bytes) (ecdsa_verify : bytes -> sighash -> sigT -> bool)
+         (pre post : list (hop sigT)) b rs,
+    hrun sigT der ecdsa_verify new_builder (pre ++ HCompute :: post) = (b, rs) ->
+    nth_error rs (length pre) =
+    Some (match tx_sighashes (hist_ins sigT pre) (hist_outs sigT pre) with
+          | Some hs => RHashes hs
+          | None => RHashErr
+          end).
+Proof. exact Proofs.C27.history_sighashes_fresh. Qed.
+Print Assumptions history_sighashes_fresh.
+
+(* Any calls of Add*Input / AddOutput / ComputeSignatureHashes in any order and number, then a
+   computation that returns hashes [hs] and AddSignatures right after it: [hs] are the hashes of
+   the final transaction, the produced transaction is that transaction, and (wallet / deposit
+   inputs, signatures by the committed keys, library premise as in all_inputs_accepted) the engine
+   accepts every input. *)
+Theorem history_signed_accepted :
+  forall (hash160 sha256 : bytes -> bytes) (der_strict : bytes -> bool)
+         (checksig : bytes -> bytes -> sighash -> bool)
+         (sigT : Type) (der : sigT -> bytes) (ecdsa_verify : bytes -> sighash -> sigT -> bool),
+    (forall x, length (hash160 x) = 20%nat) -> (forall x, length (sha256 x) = 32%nat) ->
+    (forall pk h sg, ecdsa_verify pk h sg = true ->
+                     sig_enc_ok der_strict (der sg) = true /\ checksig pk (der sg) h = true) ->
+    forall (pre : list (hop sigT)) (wins : list winput) (sigs : list (sigT * bytes)) b rs hs tx,
+      Forall (fun o => is_sign sigT o = false) pre ->
+      hist_ins sigT pre = map (to_input hash160 sha256) wins ->
+      Forall (fun w => wkind_wf (wi_kind w)) wins ->
+      hrun sigT der ecdsa_verify new_builder (pre ++ [HCompute; HSign sigs]) = (b, rs) ->
+      nth_error rs (length pre) = Some (RHashes hs) ->
+      nth_error rs (S (length pre)) = Some (RTx tx) ->
+      (forall i w sg pk, nth_error wins i = Some w -> nth_error sigs i = Some (sg, pk) ->
+                         compressed_pk pk = true /\ hash160 pk = committed_pkh (wi_kind w)) ->
+      tx_sighashes (hist_ins sigT pre) (hist_outs sigT pre) = Some hs /\
+      st_skel tx = tx_of (hist_ins sigT pre) (hist_outs sigT pre) /\
+      forall i w, nth_error wins i = Some w ->
+        exists si, nth_error (st_ins tx) i = Some si /\
+          verify_input hash160 sha256 der_strict checksig (st_skel tx) i
+                       (si_script si) (si_witness si)
+                       (in_script (to_input hash160 sha256 w)) (u_value (wi_utxo w)) = Accept.
+Proof. exact Proofs.C27.history_signed_accepted. Qed.
+Print Assumptions history_signed_accepted.
+
+(* Something added AFTER the last computation, code as written.
+   An input: AddSignatures never produces a transaction (it compares the count with the current
+   inputs and then indexes the stored, shorter list: a refusal or a run-time panic). *)
+Theorem input_after_computation_no_tx :
+  forall (sigT : Type) (der : sigT -> bytes) (ecdsa_verify : bytes -> sighash -> sigT -> bool)
+         (pre mid : list (hop sigT)) sigs b rs,
+    Forall (fun o => is_compute sigT o = false) mid ->
+    hist_ins sigT mid <> [] ->
+    hrun sigT der ecdsa_verify new_builder (pre ++ mid ++ [HSign sigs]) = (b, rs) ->
+    exists r, nth_error rs (length pre + length mid) = Some r /\ forall tx, r <> RTx tx.
+Proof. exact Proofs.C27.input_after_computation_no_tx. Qed.
+Print Assumptions input_after_computation_no_tx.
+
+(* An output: AddSignatures verifies the STORED hashes (it recomputes nothing), so signatures over
+   the last computation still yield a transaction - which now has the extra output and whose
+   input the engine rejects.  The unrestricted claim "a produced transaction validates" is
+   therefore false for such histories; witness (the library premise holds of the instance). *)
+Theorem output_after_computation_refuted :
+  (forall pk h sg, StaleWitness.ev pk h sg = true ->
+                   sig_enc_ok Witness.yes1 (Witness.der sg) = true /\
+                   StaleWitness.cs pk (Witness.der sg) h = true) /\
+  exists b rs tx si,
+    hrun unit Witness.der StaleWitness.ev new_builder StaleWitness.hist = (b, rs) /\
+    nth_error rs 4 = Some (RTx tx) /\ nth_error (st_ins tx) 0 = Some si /\
+    length (tx_outs (st_skel tx)) = 2%nat /\
+    verify_input Witness.h160 Witness.s256 Witness.yes1 StaleWitness.cs (st_skel tx) 0
+                 (si_script si) (si_witness si)
+                 (in_script (to_input Witness.h160 Witness.s256 StaleWitness.w))
+                 (u_value (wi_utxo StaleWitness.w)) = Reject.
+Proof. exact Proofs.C27.output_after_computation_refuted. Qed.
+Print Assumptions output_after_computation_refuted.
+
+(* executable form for history cases *)
+Theorem hist_spec_ok_sound : forall c : hist_case,
+    Hist.spec_ok c = true ->
+    (hc_expect_valid c = true ->
+     Hist.last_is_tx (hc_obs c) = true /\ hc_final c <> [] /\
+     forall fi, In fi (hc_final c) -> fi_engine fi = Some true) /\
+    (hc_must_reject c = true -> Hist.last_is_tx (hc_obs c) = false) /\
+    (In BPanic (hc_obs c) -> Hist.input_after_compute (hc_ops c) (hc_obs c) false = true).
+Proof. exact Proofs.C27.hist_spec_ok_sound. Qed.
+Print Assumptions hist_spec_ok_sound.
+
+Theorem judge_any_agree_sound : forall c : any_case,
+    judge_any c = Agree ->
+    match c with
+    | CTx c => Concrete.spec_ok c = true /\ Concrete.agree c = true
+    | CHist c => Hist.spec_ok c = true /\ Hist.agree c = true
+    end.
+Proof. exact Proofs.C27.judge_any_agree_sound. Qed.
+Print Assumptions judge_any_agree_sound.
